@@ -43,6 +43,34 @@ func init() {
 		}
 		return Obs{"usage": out}
 	})
+	// c01_parts: per store file and message: how many part rows are read from a blob
+	// (blob_id set) and how many hold octets NOWHERE (no blob, empty text_content,
+	// although the part had a size and is not a multipart container), read-only.
+	register("c01_parts", func(w *World, op Op) Obs {
+		out := map[string]interface{}{}
+		files, _ := filepath.Glob(filepath.Join(w.dataDir, "*.db"))
+		sort.Strings(files)
+		for _, f := range files {
+			base := strings.TrimSuffix(filepath.Base(f), ".db")
+			if base == "shared" {
+				continue
+			}
+			d, err := openRO(f)
+			if err != nil {
+				continue
+			}
+			rows, err := queryRows(d, `SELECT message_id,
+				SUM(CASE WHEN blob_id IS NOT NULL THEN 1 ELSE 0 END),
+				SUM(CASE WHEN blob_id IS NULL AND COALESCE(text_content,'') = '' AND size_bytes > 0
+				          AND lower(content_type) NOT LIKE 'multipart/%' THEN 1 ELSE 0 END)
+				FROM message_parts GROUP BY message_id ORDER BY message_id`)
+			if err == nil {
+				out[base] = rows
+			}
+			d.Close()
+		}
+		return Obs{"parts": out}
+	})
 	register("c01_txn", func(w *World, op Op) Obs {
 		cl, ok := w.conns[op.str("conn")]
 		if !ok {
@@ -53,7 +81,7 @@ func init() {
 			if _, err := cl.conn.Write([]byte(line)); err != nil {
 				return "", "write-error"
 			}
-			b, how := cl.readUntil(pred, 8*time.Second)
+			b, how := cl.readUntil(pred, time.Duration(op.num("timeout_ms", 8000))*time.Millisecond)
 			return string(b), how
 		}
 		res := Obs{}
